@@ -1227,9 +1227,12 @@ def auto_th(n, baseline, target, fs='auto', mode='positive', auto_th_cb=None,
     # Immediately send the data accumulated for the baseline (plus any extra
     # data that was captured), then wait for the next chunk of data.
     while True:
-        if isinstance(data, PipelineData):
-            data.metadata['auto_th'] = th
-        target(th_cb(data))
+        # Annotate the block we emit, not the one we received: the caller may
+        # send the same chunk to other stages as well (e.g., via `broadcast`).
+        result = th_cb(data)
+        if isinstance(result, PipelineData):
+            result.metadata['auto_th'] = th
+        target(result)
         data = (yield)
 
 
